@@ -4,7 +4,6 @@ use crate::dynv::*;
 use crate::engine::*;
 use crate::raw;
 use rayon::prelude::*;
-use serde::de::DeserializeSeed;
 use serde::{Deserialize, Serialize};
 use serde_json::json;
 
